@@ -13,6 +13,12 @@ CHECKS = {
         "6/C19",
     ),
 }
+CHECKS["C06"] = (
+    E1,
+    "Every Python-legal parameter-kind sequence up to length 3 (quick) / 5 (thorough) x default-presence patterns x annotation patterns x 9 owner kinds, and every default-value letter in every position, is rendered, analysed by the real pipeline and generator, and the parsed stub parameter list and the API JSON parameters are compared with the signature that was written. Exhaustive within the bound.",
+    "Ground truth is the rendered source; trusts the independent stub recogniser (mc/sds_parser.py); signatures longer than the bound and default values outside the letter set are not covered.",
+    "6/C06",
+)
 NOT_YET = {}  # id -> reason (filled for properties without a check)
 
 props = [json.loads(l) for l in open(V / "properties.jsonl")]
